@@ -85,7 +85,9 @@ func genC14(rt *rapid.T) C14Scenario {
 	}
 	tods := []int64{0, 0, 600, 1799, 1800, 1801, 2700, 43200, 86400 - 120}
 	s.SubjectTodS = rapid.SampledFrom(tods).Draw(rt, "subject.tod")
-	s.HistShiftDays = rapid.SampledFrom([]int64{0, 0, 1, 2}).Draw(rt, "hist.days")
+	// (0 and 1 stay inside the run's own block of four days; 31 and 366 - the same day of the month one month or one
+	// year on - are congruent to 3 and 2 modulo 4 and so never fall on a day another run starts from)
+	s.HistShiftDays = rapid.SampledFrom([]int64{0, 0, 1, 31, 366}).Draw(rt, "hist.days")
 	for i := 0; i < nh; i++ {
 		s.HistTodS = append(s.HistTodS, rapid.SampledFrom(tods).Draw(rt, fmt.Sprintf("h%d.tod", i)))
 	}
